@@ -254,10 +254,32 @@ func (fg *FG) instr(st *State, in ssa.Instruction) {
 	case *ssa.MakeInterface:
 		a := fg.val(x.X)
 		if a.Loc != nil && a.T == "" {
-			fg.fail("interior address converted to interface")
+			// an interior address (&s.f) passed as an interface value: a fresh cell holding a copy of
+			// the pointee stands in for it, and is copied back after the call that receives it
+			// (sound for callees that neither retain the pointer nor reach the pointee another way)
+			el := x.X.Type().(*types.Pointer).Elem()
+			if _, isS := structOf(el); isS {
+				fg.fail("interior struct address converted to interface")
+			}
+			if _, isA := types.Unalias(el).Underlying().(*types.Array); isA {
+				fg.fail("interior array address converted to interface")
+			}
+			r := fg.allocRef(st)
+			fg.assume(fmt.Sprintf("(> %s 0)", r))
+			fam, csrt := fg.cellFamily(el)
+			fg.heapSort[fam] = csrt
+			cell := &Loc{Kind: LCell, Heap: fam, Ref: r, Ty: el}
+			fg.store(st, cell, fg.load(st, a.Loc))
+			if fg.copyOut == nil {
+				fg.copyOut = map[ssa.Value]copyOutInfo{}
+			}
+			fg.copyOut[x] = copyOutInfo{orig: a.Loc, cell: cell}
+			a = Val{T: r, Ty: x.X.Type()}
 		}
 		srt := fg.sorts.sortOf(x.X.Type())
-		fg.bind(x, fmt.Sprintf("(mk-iface %s %s)", fg.sorts.typeTag(x.X.Type()), fg.sorts.box(srt, a.T)))
+		bv := fg.bind(x, fmt.Sprintf("(mk-iface %s %s)", fg.sorts.typeTag(x.X.Type()), fg.sorts.box(srt, a.T)))
+		bv.DynTy = x.X.Type()
+		fg.vals[x] = bv
 	case *ssa.TypeAssert:
 		fg.typeAssert(st, x)
 	case *ssa.Slice:
